@@ -1,0 +1,427 @@
+//go:build verif
+
+package capacity
+
+// Contracts for govc (/verif). Comment-only file: no executable code, not part of the default build.
+
+// C28 "size-bounded LRU cache matches a reference LRU".
+//
+// Abstract view: the sequence of (key,size) pairs read off the evictList from the front (most recent) to the back.
+// The contracts state the reference LRU's transition of every operation in LOCAL form over the real link structure
+// of container/list (next/prev/owner/llen, see /verif/govc/cmd/govc/models3.go):
+//   - struct invariant: index <-> list bijection (index-to-list, list-to-index, card), sizes >= 0, empty list <=> 0 bytes;
+//   - byte counter: exact delta of every elementary step (addNew +size, removeElement -size, update/adjustSize
+//     -old+new); machine arithmetic (`mode bv`), so no "fits in int64" assumption is needed. For eviction and for the
+//     add of a new key the global form is proved as well for an arbitrary witness: if the counter is the running sum
+//     of the sizes before (sizeSums), it is afterwards (bytes-stay-the-sum);
+//   - recency: add/update/Get put the element at the front and keep the relative order of the others; Peek/Contains/
+//     AddSizedIfMissing-hit write nothing; eviction removes from the back only (every survivor keeps its predecessor
+//     link, so the survivors are a prefix), only while over a limit and more than one element is left, and never the
+//     front (= the element just added or touched);
+//   - lockset: currentCapacityInBytes, evictList, items are guarded by lock.
+// Assumptions (environment): Remove's `last-item-accounts-for-all-bytes` and Keys' `index-counts-the-list` are
+// consequences of "counter == sum" / "index and list have the same number of elements" that cannot be stated as
+// first-order struct invariants over the list model (the verifier does not count list elements).
+// Findings kept as failing obligations: AddSized#post:reports-eviction-on-update (F28a),
+// AddSizedAndReturnEvicted#inv-init:loop1:returns-all-evicted-on-update (F28b).
+
+/*@
+// ---- C28: size-bounded LRU cache = container/list (front = most recent) + index map key -> element ----
+
+spec fn entOf(e *list.Element) *entry = payload(e.Value, ptr_entry)
+spec fn holdsEntry(e *list.Element) bool = typeIs(e.Value, ptr_entry) && entOf(e) != nil
+spec fn isRef(e *list.Element) bool = exists x *list.Element :: x == e     // e is an ordinary object reference (quantified pointer variables range over those)
+spec fn withinLimits(c *capacityLRU) bool = llen(c.evictList) == 1 || (llen(c.evictList) <= c.size && c.currentCapacityInBytes <= c.maxCapacityInBytes)
+spec fn oldest(c *capacityLRU) *list.Element = back(c.evictList)
+spec fn newest(c *capacityLRU) *list.Element = front(c.evictList)
+
+// "the byte counter is the sum of the sizes": psum/psum2 are arbitrary functions (uninterpreted, no axioms); sizeSums(c)
+// says psum is the running sum of sizes from the front and the counter is its value at the back.
+spec fn psum(e *list.Element) int64
+spec fn psum2(e *list.Element) int64
+spec fn sizeSums(c *capacityLRU) bool = (newest(c) != nil ==> psum(newest(c)) == entOf(newest(c)).size) && (forall x *list.Element :: inList(c.evictList, x) && x != oldest(c) ==> psum(next(x)) == psum(x) + entOf(next(x)).size) && (oldest(c) != nil ==> c.currentCapacityInBytes == psum(oldest(c)))
+spec fn sizeSums2(c *capacityLRU) bool = (newest(c) != nil ==> psum2(newest(c)) == entOf(newest(c)).size) && (forall x *list.Element :: inList(c.evictList, x) && x != oldest(c) ==> psum2(next(x)) == psum2(x) + entOf(next(x)).size) && (oldest(c) != nil ==> c.currentCapacityInBytes == psum2(oldest(c)))
+
+struct capacityLRU
+  guarded_by lock: currentCapacityInBytes, evictList, items
+  invariant cfg: size >= 1 && maxCapacityInBytes >= 1
+  invariant alloc: evictList != nil && items != nil
+  invariant wf: wfList(evictList)
+  invariant index-to-list: forall k any :: has(items, k) ==> inList(evictList, items[k]) && holdsEntry(items[k]) && entOf(items[k]).key == k && allocated(entOf(items[k])) && isRef(items[k])
+  invariant list-to-index: forall e *list.Element :: inList(evictList, e) ==> holdsEntry(e) && has(items, entOf(e).key) && items[entOf(e).key] == e
+  invariant card: len(items) == llen(evictList)
+  invariant empty-is-zero: llen(evictList) == 0 ==> currentCapacityInBytes == 0
+  invariant allocated-entries: forall e *list.Element :: inList(evictList, e) ==> allocated(e) && allocated(entOf(e))
+  invariant sizes-nonneg: forall e *list.Element :: inList(evictList, e) ==> entOf(e).size >= 0
+
+func (c *capacityLRU) shouldEvict() (r bool)
+  mode bv
+  requires c.evictList != nil
+  ensures  def: r == (llen(c.evictList) != 1 && (llen(c.evictList) > c.size || c.currentCapacityInBytes > c.maxCapacityInBytes))
+  assigns  nothing
+  holds lock
+
+// removeElement: the reference transition "delete e from the sequence" in local form (neighbours bridged, every other link kept)
+func (c *capacityLRU) removeElement(e *list.Element)
+  mode bv
+  requires inv(c)
+  requires linked: inList(c.evictList, e)
+  requires last-item-accounts-for-all-bytes: llen(c.evictList) == 1 ==> c.currentCapacityInBytes == entOf(e).size
+  ensures  inv(c)
+  ensures  detached: owner(e) == nil
+  ensures  others-stay-linked: forall x *list.Element :: x != e ==> owner(x) == old(owner(x))
+  ensures  unindexed: !has(c.items, entOf(e).key)
+  ensures  other-keys-kept: forall k any :: k != entOf(e).key ==> has(c.items, k) == old(has(c.items, k)) && c.items[k] == old(c.items[k])
+  ensures  bytes-once: c.currentCapacityInBytes == old(c.currentCapacityInBytes) - entOf(e).size
+  ensures  one-less: llen(c.evictList) == old(llen(c.evictList)) - 1
+  ensures  order-kept-next: forall x *list.Element :: x != e && x != old(prev(e)) ==> next(x) == old(next(x))
+  ensures  order-kept-prev: forall x *list.Element :: x != e && x != old(next(e)) ==> prev(x) == old(prev(x))
+  ensures  neighbours-bridged: next(old(prev(e))) == old(next(e)) && prev(old(next(e))) == old(prev(e))
+  ensures  front-kept: e != old(newest(c)) ==> newest(c) == old(newest(c))
+  ensures  back-kept: e != old(oldest(c)) ==> oldest(c) == old(oldest(c))
+  ensures  same-index-map: c.items == old(c.items) && c.evictList == old(c.evictList)
+  assigns  c.currentCapacityInBytes, mapof(c.items), listof(c.evictList)
+  holds lock
+
+func (c *capacityLRU) removeOldest()
+  mode bv
+  requires inv(c)
+  requires not-last: llen(c.evictList) != 1
+  ensures  inv(c)
+  ensures  empty-noop: old(llen(c.evictList)) == 0 ==> llen(c.evictList) == 0 && c.currentCapacityInBytes == old(c.currentCapacityInBytes)
+  ensures  oldest-removed: old(oldest(c)) != nil ==> owner(old(oldest(c))) == nil && !has(c.items, entOf(old(oldest(c))).key) && c.currentCapacityInBytes == old(c.currentCapacityInBytes) - entOf(old(oldest(c))).size && llen(c.evictList) == old(llen(c.evictList)) - 1
+  ensures  others-stay-linked: forall x *list.Element :: x != old(oldest(c)) ==> owner(x) == old(owner(x))
+  ensures  index-only-shrinks: forall k any :: has(c.items, k) ==> old(has(c.items, k)) && c.items[k] == old(c.items[k])
+  ensures  front-kept: old(newest(c)) != old(oldest(c)) ==> newest(c) == old(newest(c))
+  ensures  other-keys-kept: forall k any :: old(has(c.items, k)) && old(c.items[k]) != old(oldest(c)) ==> has(c.items, k) && c.items[k] == old(c.items[k])
+  ensures  survivors-keep-prev: forall x *list.Element :: inList(c.evictList, x) ==> prev(x) == old(prev(x))
+  ensures  survivors-keep-next: forall x *list.Element :: inList(c.evictList, x) && x != oldest(c) ==> next(x) == old(next(x))
+  ensures  same-index-map: c.items == old(c.items) && c.evictList == old(c.evictList)
+  ensures  bytes-stay-the-sum: old(sizeSums(c)) ==> sizeSums(c)
+  ensures  bytes-stay-the-sum-2: old(sizeSums2(c)) ==> sizeSums2(c)
+  assigns  c.currentCapacityInBytes, mapof(c.items), listof(c.evictList)
+  holds lock
+
+// evictIfNeeded: removes from the back while over a limit and more than one element is left; survivors are a prefix
+// of the old sequence (every survivor keeps its predecessor link), the front (the element just added/touched) stays.
+func (c *capacityLRU) evictIfNeeded() (r bool)
+  mode bv
+  requires inv(c)
+  ensures  inv(c)
+  ensures  within-limits-or-single: llen(c.evictList) == 1 || (llen(c.evictList) <= c.size && c.currentCapacityInBytes <= c.maxCapacityInBytes)
+  ensures  reports-eviction: r == (llen(c.evictList) != old(llen(c.evictList))) && llen(c.evictList) <= old(llen(c.evictList))
+  ensures  within-limits-evicts-nothing: old(withinLimits(c)) ==> !r
+  ensures  untouched-when-not-evicting: !r ==> c.currentCapacityInBytes == old(c.currentCapacityInBytes) && (forall x *list.Element :: owner(x) == old(owner(x)) && next(x) == old(next(x)) && prev(x) == old(prev(x))) && (forall k any :: has(c.items, k) == old(has(c.items, k)))
+  ensures  only-removes: forall x *list.Element :: owner(x) == old(owner(x)) || (old(inList(c.evictList, x)) && owner(x) == nil)
+  ensures  index-only-shrinks: forall k any :: has(c.items, k) ==> old(has(c.items, k)) && c.items[k] == old(c.items[k])
+  ensures  evicts-from-back: forall x *list.Element :: inList(c.evictList, x) ==> prev(x) == old(prev(x))
+  ensures  survivors-keep-next: forall x *list.Element :: inList(c.evictList, x) && x != oldest(c) ==> next(x) == old(next(x))
+  ensures  newest-stays: newest(c) == old(newest(c))
+  ensures  newest-stays-indexed: forall k any :: old(has(c.items, k)) && old(c.items[k]) == old(newest(c)) ==> has(c.items, k) && c.items[k] == old(c.items[k])
+  ensures  same-index-map: c.items == old(c.items) && c.evictList == old(c.evictList)
+  ensures  bytes-stay-the-sum: old(sizeSums(c)) ==> sizeSums(c)
+  ensures  bytes-stay-the-sum-2: old(sizeSums2(c)) ==> sizeSums2(c)
+  assigns  c.currentCapacityInBytes, mapof(c.items), listof(c.evictList)
+  holds lock
+
+loop 1
+  invariant inv(c)
+  invariant evicted ==> llen(c.evictList) < old(llen(c.evictList))
+  invariant !evicted ==> llen(c.evictList) == old(llen(c.evictList))
+  invariant old(withinLimits(c)) ==> !evicted
+  invariant !evicted ==> c.currentCapacityInBytes == old(c.currentCapacityInBytes) && (forall x *list.Element :: owner(x) == old(owner(x)) && next(x) == old(next(x)) && prev(x) == old(prev(x))) && (forall k any :: has(c.items, k) == old(has(c.items, k)))
+  invariant forall x *list.Element :: owner(x) == old(owner(x)) || (old(inList(c.evictList, x)) && owner(x) == nil)
+  invariant forall k any :: has(c.items, k) ==> old(has(c.items, k)) && c.items[k] == old(c.items[k])
+  invariant forall x *list.Element :: inList(c.evictList, x) ==> prev(x) == old(prev(x))
+  invariant forall x *list.Element :: inList(c.evictList, x) && x != oldest(c) ==> next(x) == old(next(x))
+  invariant newest(c) == old(newest(c))
+  invariant forall k any :: old(has(c.items, k)) && old(c.items[k]) == old(newest(c)) ==> has(c.items, k) && c.items[k] == old(c.items[k])
+  invariant c.items == old(c.items) && c.evictList == old(c.evictList)
+  invariant old(sizeSums(c)) ==> sizeSums(c)
+  invariant old(sizeSums2(c)) ==> sizeSums2(c)
+  decreases llen(c.evictList)
+
+// addNew: the reference transition "push (key,size) at the front" in local form
+func (c *capacityLRU) addNew(key interface{}, value interface{}, sizeInBytes int64)
+  mode bv
+  requires inv(c)
+  requires absent: !has(c.items, key)
+  requires size-nonneg: sizeInBytes >= 0
+  ensures  inv(c)
+  ensures  indexed: has(c.items, key) && fresh(c.items[key]) && inList(c.evictList, c.items[key])
+  ensures  at-front: front(c.evictList, c.items[key]) == c.items[key]
+  ensures  holds-the-entry: holdsEntry(c.items[key]) && entOf(c.items[key]).key == key && entOf(c.items[key]).value == value && entOf(c.items[key]).size == sizeInBytes
+  ensures  bytes-once: c.currentCapacityInBytes == old(c.currentCapacityInBytes) + sizeInBytes
+  ensures  one-more: llen(c.evictList) == old(llen(c.evictList)) + 1
+  ensures  others-stay-linked: forall x *list.Element :: x != c.items[key] ==> owner(x) == old(owner(x))
+  ensures  other-keys-kept: forall k any :: k != key ==> has(c.items, k) == old(has(c.items, k)) && c.items[k] == old(c.items[k])
+  ensures  order-kept: forall x *list.Element :: old(inList(c.evictList, x)) ==> next(x) == old(next(x)) && (x == old(front(c.evictList, x)) ? prev(x) == c.items[key] : prev(x) == old(prev(x)))
+  ensures  before-old-front: forall x *list.Element :: x == old(front(c.evictList, x)) && x != nil ==> next(c.items[key]) == x
+  ensures  bytes-stay-the-sum: old(sizeSums(c)) && psum2(c.items[key]) == sizeInBytes && (forall x *list.Element :: old(inList(c.evictList, x)) ==> psum2(x) == psum(x) + sizeInBytes) ==> sizeSums2(c)
+  ensures  same-index-map: c.items == old(c.items) && c.evictList == old(c.evictList)
+  assigns  c.currentCapacityInBytes, mapof(c.items), listof(c.evictList)
+  holds lock
+@*/
+
+/*@
+// ---- update path: resize in place, move to front, then evict from the back ----
+
+func (c *capacityLRU) adjustSize(key interface{}, sizeInBytes int64)
+  mode bv
+  requires inv(c)
+  requires present: has(c.items, key)
+  requires size-nonneg: sizeInBytes >= 0
+  ensures  inv(c)
+  ensures  resized: entOf(old(c.items[key])).size == sizeInBytes
+  ensures  bytes-delta-when-no-eviction: llen(c.evictList) == old(llen(c.evictList)) ==> c.currentCapacityInBytes == old(c.currentCapacityInBytes) - old(entOf(c.items[key]).size) + sizeInBytes
+  ensures  untouched-when-not-evicting: llen(c.evictList) == old(llen(c.evictList)) ==> (forall x *list.Element :: owner(x) == old(owner(x)) && next(x) == old(next(x)) && prev(x) == old(prev(x))) && (forall k any :: has(c.items, k) == old(has(c.items, k)))
+  ensures  within-limits-or-single: llen(c.evictList) == 1 || (llen(c.evictList) <= c.size && c.currentCapacityInBytes <= c.maxCapacityInBytes)
+  ensures  shrinks-only: llen(c.evictList) <= old(llen(c.evictList))
+  ensures  only-removes: forall x *list.Element :: owner(x) == old(owner(x)) || (old(inList(c.evictList, x)) && owner(x) == nil)
+  ensures  index-only-shrinks: forall k any :: has(c.items, k) ==> old(has(c.items, k)) && c.items[k] == old(c.items[k])
+  ensures  evicts-from-back: forall x *list.Element :: inList(c.evictList, x) ==> prev(x) == old(prev(x))
+  ensures  survivors-keep-next: forall x *list.Element :: inList(c.evictList, x) && x != oldest(c) ==> next(x) == old(next(x))
+  ensures  newest-stays: newest(c) == old(newest(c))
+  ensures  newest-stays-indexed: forall k any :: old(has(c.items, k)) && old(c.items[k]) == old(newest(c)) ==> has(c.items, k) && c.items[k] == old(c.items[k])
+  ensures  same-index-map: c.items == old(c.items) && c.evictList == old(c.evictList)
+  ensures  element-value-kept: old(c.items[key]).Value == old(c.items[key].Value)
+  assigns  c.currentCapacityInBytes, mapof(c.items), listof(c.evictList), entOf(c.items[key]).size, c.items[key].Value
+  holds lock
+
+func (c *capacityLRU) update(key interface{}, value interface{}, sizeInBytes int64, ent *list.Element)
+  mode bv
+  requires inv(c)
+  requires indexed: has(c.items, key) && c.items[key] == ent
+  requires size-nonneg: sizeInBytes >= 0
+  ensures  inv(c)
+  ensures  still-present: has(c.items, key) && c.items[key] == ent
+  ensures  at-front: newest(c) == ent
+  ensures  new-value-and-size: entOf(ent) == old(entOf(ent)) && entOf(ent).key == key && entOf(ent).value == value && entOf(ent).size == sizeInBytes
+  ensures  bytes-delta-when-no-eviction: llen(c.evictList) == old(llen(c.evictList)) ==> c.currentCapacityInBytes == old(c.currentCapacityInBytes) - old(entOf(ent).size) + sizeInBytes
+  ensures  index-unchanged-when-no-eviction: llen(c.evictList) == old(llen(c.evictList)) ==> (forall x *list.Element :: owner(x) == old(owner(x))) && (forall k any :: has(c.items, k) == old(has(c.items, k)))
+  ensures  within-limits-or-single: llen(c.evictList) == 1 || (llen(c.evictList) <= c.size && c.currentCapacityInBytes <= c.maxCapacityInBytes)
+  ensures  shrinks-only: llen(c.evictList) <= old(llen(c.evictList))
+  ensures  only-removes: forall x *list.Element :: owner(x) == old(owner(x)) || (old(inList(c.evictList, x)) && owner(x) == nil)
+  ensures  index-only-shrinks: forall k any :: has(c.items, k) ==> old(has(c.items, k)) && c.items[k] == old(c.items[k])
+  ensures  others-keep-relative-order: forall x *list.Element :: inList(c.evictList, x) && x != ent && x != oldest(c) ==> next(x) == (old(newest(c)) != ent && old(next(x)) == ent ? old(next(ent)) : old(next(x)))
+  ensures  old-front-is-second: old(newest(c)) != ent && ent != oldest(c) ==> next(ent) == old(newest(c))
+  ensures  same-index-map: c.items == old(c.items) && c.evictList == old(c.evictList)
+  assigns  c.currentCapacityInBytes, mapof(c.items), listof(c.evictList), entOf(ent).size, entOf(ent).value, ent.Value
+  holds lock
+
+func (c *capacityLRU) addSized(key interface{}, value interface{}, sizeInBytes int64)
+  mode bv
+  requires inv(c)
+  ensures  inv(c)
+  ensures  rejected-negative: sizeInBytes < 0 ==> c.currentCapacityInBytes == old(c.currentCapacityInBytes) && llen(c.evictList) == old(llen(c.evictList)) && (forall x *list.Element :: owner(x) == old(owner(x)) && next(x) == old(next(x)) && prev(x) == old(prev(x))) && (forall k any :: has(c.items, k) == old(has(c.items, k)) && (has(c.items, k) ==> c.items[k] == old(c.items[k])))
+  ensures  rejected-negative-entries: sizeInBytes < 0 ==> (forall x *list.Element :: x.Value == old(x.Value) && entOf(x).key == old(entOf(x).key) && entOf(x).value == old(entOf(x).value) && entOf(x).size == old(entOf(x).size))
+  ensures  present-at-front: sizeInBytes >= 0 ==> has(c.items, key) && newest(c) == c.items[key] && inList(c.evictList, c.items[key])
+  ensures  holds-the-entry: sizeInBytes >= 0 ==> entOf(c.items[key]).key == key && entOf(c.items[key]).value == value && entOf(c.items[key]).size == sizeInBytes
+  ensures  reuses-element: sizeInBytes >= 0 && old(has(c.items, key)) ==> c.items[key] == old(c.items[key])
+  ensures  new-element: sizeInBytes >= 0 && !old(has(c.items, key)) ==> fresh(c.items[key])
+  ensures  bytes-new: sizeInBytes >= 0 && !old(has(c.items, key)) ==> c.currentCapacityInBytes == old(c.currentCapacityInBytes) + sizeInBytes && llen(c.evictList) == old(llen(c.evictList)) + 1
+  ensures  bytes-update-when-no-eviction: sizeInBytes >= 0 && old(has(c.items, key)) && llen(c.evictList) == old(llen(c.evictList)) ==> c.currentCapacityInBytes == old(c.currentCapacityInBytes) - old(entOf(c.items[key]).size) + sizeInBytes
+  ensures  update-within-limits-or-single: sizeInBytes >= 0 && old(has(c.items, key)) ==> llen(c.evictList) == 1 || (llen(c.evictList) <= c.size && c.currentCapacityInBytes <= c.maxCapacityInBytes)
+  ensures  update-shrinks-only: old(has(c.items, key)) ==> llen(c.evictList) <= old(llen(c.evictList))
+  ensures  only-removes-others: forall x *list.Element :: sizeInBytes < 0 || x != c.items[key] ==> owner(x) == old(owner(x)) || (old(inList(c.evictList, x)) && owner(x) == nil)
+  ensures  index-only-shrinks: forall k any :: k != key && has(c.items, k) ==> old(has(c.items, k)) && c.items[k] == old(c.items[k])
+  ensures  new-key-evicts-nothing: !old(has(c.items, key)) ==> (forall k any :: old(has(c.items, k)) ==> has(c.items, k))
+  ensures  other-entries-kept: sizeInBytes >= 0 ==> forall x *list.Element :: old(inList(c.evictList, x)) && x != c.items[key] ==> x.Value == old(x.Value) && entOf(x).key == old(entOf(x).key) && entOf(x).value == old(entOf(x).value) && entOf(x).size == old(entOf(x).size)
+  ensures  same-index-map: c.items == old(c.items) && c.evictList == old(c.evictList)
+  assigns  c.currentCapacityInBytes, mapof(c.items), listof(c.evictList), entOf(c.items[key]).size, entOf(c.items[key]).value, c.items[key].Value
+  holds lock
+@*/
+
+/*@
+// ---- public operations (take c.lock themselves) ----
+
+// Get: reference transition "move key's element to the front" (no change on a miss); nothing else moves
+func (c *capacityLRU) Get(key interface{}) (v interface{}, ok bool)
+  mode bv
+  requires inv(c)
+  ensures  inv(c)
+  ensures  found-iff-present: ok == has(c.items, key)
+  ensures  value-of-key: ok ==> v == entOf(c.items[key]).value
+  ensures  miss-is-nil: !ok ==> v == nil
+  ensures  refreshes-recency: ok ==> newest(c) == c.items[key]
+  ensures  index-unchanged: forall k any :: has(c.items, k) == old(has(c.items, k)) && c.items[k] == old(c.items[k])
+  ensures  bytes-unchanged: c.currentCapacityInBytes == old(c.currentCapacityInBytes) && llen(c.evictList) == old(llen(c.evictList))
+  ensures  membership-unchanged: forall x *list.Element :: owner(x) == old(owner(x))
+  ensures  no-move-when-miss-or-front: !ok || old(newest(c)) == c.items[key] ==> (forall x *list.Element :: next(x) == old(next(x)) && prev(x) == old(prev(x)))
+  ensures  others-keep-relative-order: ok && old(newest(c)) != c.items[key] ==> (forall x *list.Element :: inList(c.evictList, x) && x != c.items[key] ==> next(x) == (old(next(x)) == c.items[key] ? old(next(c.items[key])) : old(next(x))))
+  ensures  old-front-is-second: ok && old(newest(c)) != c.items[key] ==> next(c.items[key]) == old(newest(c))
+  ensures  lock-released: !held(c.lock)
+  assigns  listof(c.evictList)
+
+// Peek / Contains: no recency refresh (nothing is written)
+func (c *capacityLRU) Peek(key interface{}) (v interface{}, ok bool)
+  mode bv
+  requires inv(c)
+  ensures  found-iff-present: ok == has(c.items, key)
+  ensures  value-of-key: ok ==> v == entOf(c.items[key]).value
+  ensures  miss-is-nil: !ok ==> v == nil
+  ensures  lock-released: !held(c.lock)
+  assigns  nothing
+
+func (c *capacityLRU) Contains(key interface{}) (r bool)
+  mode bv
+  requires inv(c)
+  ensures  present: r == has(c.items, key)
+  ensures  lock-released: !held(c.lock)
+  assigns  nothing
+
+func (c *capacityLRU) Len() (r int)
+  mode bv
+  requires inv(c)
+  ensures  list-length: r == llen(c.evictList)
+  ensures  lock-released: !held(c.lock)
+  assigns  nothing
+
+func (c *capacityLRU) SizeInBytesContained() (r uint64)
+  mode bv
+  requires inv(c)
+  ensures  reports-counter: r == uint64(c.currentCapacityInBytes)
+  ensures  lock-released: !held(c.lock)
+  assigns  nothing
+
+// Remove: reference transition "delete key" (no change when absent)
+func (c *capacityLRU) Remove(key interface{}) (r bool)
+  mode bv
+  requires inv(c)
+  requires last-item-accounts-for-all-bytes: has(c.items, key) && llen(c.evictList) == 1 ==> c.currentCapacityInBytes == entOf(c.items[key]).size
+  ensures  inv(c)
+  ensures  found-iff-present: r == old(has(c.items, key))
+  ensures  gone: !has(c.items, key)
+  ensures  other-keys-kept: forall k any :: k != key ==> has(c.items, k) == old(has(c.items, k)) && c.items[k] == old(c.items[k])
+  ensures  bytes-once: c.currentCapacityInBytes == (r ? old(c.currentCapacityInBytes) - old(entOf(c.items[key]).size) : old(c.currentCapacityInBytes))
+  ensures  one-less: llen(c.evictList) == (r ? old(llen(c.evictList)) - 1 : old(llen(c.evictList)))
+  ensures  detached: r ==> owner(old(c.items[key])) == nil
+  ensures  others-stay-linked: forall x *list.Element :: !r || x != old(c.items[key]) ==> owner(x) == old(owner(x))
+  ensures  absent-noop: !r ==> (forall x *list.Element :: next(x) == old(next(x)) && prev(x) == old(prev(x)))
+  ensures  order-kept-next: r ==> (forall x *list.Element :: x != old(c.items[key]) && x != old(prev(c.items[key])) ==> next(x) == old(next(x)))
+  ensures  order-kept-prev: r ==> (forall x *list.Element :: x != old(c.items[key]) && x != old(next(c.items[key])) ==> prev(x) == old(prev(x)))
+  ensures  neighbours-bridged: r ==> next(old(prev(c.items[key]))) == old(next(c.items[key])) && prev(old(next(c.items[key]))) == old(prev(c.items[key]))
+  ensures  lock-released: !held(c.lock)
+  assigns  c.currentCapacityInBytes, mapof(c.items), listof(c.evictList)
+@*/
+
+/*@
+// ---- sized adds ----
+
+// AddSized: reference transition "put (key,size) at the front, then evict from the back while over a limit and more
+// than one element is left"; the element of `key` is never evicted by its own add.
+func (c *capacityLRU) AddSized(key interface{}, value interface{}, sizeInBytes int64) (r bool)
+  mode bv
+  requires inv(c)
+  ensures  inv(c)
+  ensures  rejected-negative: sizeInBytes < 0 && old(withinLimits(c)) ==> !r && c.currentCapacityInBytes == old(c.currentCapacityInBytes) && llen(c.evictList) == old(llen(c.evictList)) && (forall x *list.Element :: owner(x) == old(owner(x)) && next(x) == old(next(x)) && prev(x) == old(prev(x))) && (forall k any :: has(c.items, k) == old(has(c.items, k)) && (has(c.items, k) ==> c.items[k] == old(c.items[k])))
+  ensures  rejected-negative-entries: sizeInBytes < 0 ==> (forall x *list.Element :: x.Value == old(x.Value) && entOf(x).key == old(entOf(x).key) && entOf(x).value == old(entOf(x).value) && entOf(x).size == old(entOf(x).size))
+  ensures  newest-kept-at-front: sizeInBytes >= 0 ==> has(c.items, key) && newest(c) == c.items[key]
+  ensures  holds-the-entry: sizeInBytes >= 0 ==> entOf(c.items[key]).key == key && entOf(c.items[key]).value == value && entOf(c.items[key]).size == sizeInBytes
+  ensures  reuses-element: sizeInBytes >= 0 && old(has(c.items, key)) ==> c.items[key] == old(c.items[key])
+  ensures  within-limits-or-single: sizeInBytes >= 0 ==> llen(c.evictList) == 1 || (llen(c.evictList) <= c.size && c.currentCapacityInBytes <= c.maxCapacityInBytes)
+  ensures  bytes-when-no-eviction: sizeInBytes >= 0 && llen(c.evictList) == old(llen(c.evictList)) + (old(has(c.items, key)) ? 0 : 1) ==> c.currentCapacityInBytes == old(c.currentCapacityInBytes) + sizeInBytes - (old(has(c.items, key)) ? old(entOf(c.items[key]).size) : 0)
+  ensures  only-removes-others: forall x *list.Element :: sizeInBytes < 0 || x != c.items[key] ==> owner(x) == old(owner(x)) || (old(inList(c.evictList, x)) && owner(x) == nil)
+  ensures  index-only-shrinks: forall k any :: k != key && has(c.items, k) ==> old(has(c.items, k)) && c.items[k] == old(c.items[k])
+  ensures  other-entries-kept: sizeInBytes >= 0 ==> forall x *list.Element :: old(inList(c.evictList, x)) && x != c.items[key] ==> x.Value == old(x.Value) && entOf(x).key == old(entOf(x).key) && entOf(x).value == old(entOf(x).value) && entOf(x).size == old(entOf(x).size)
+  ensures  reports-eviction-new-key: sizeInBytes >= 0 && !old(has(c.items, key)) ==> r == (llen(c.evictList) != old(llen(c.evictList)) + 1)
+  ensures  reports-eviction-on-update: sizeInBytes >= 0 && old(has(c.items, key)) ==> r == (llen(c.evictList) != old(llen(c.evictList)))
+  ensures  lock-released: !held(c.lock)
+  assigns  c.currentCapacityInBytes, mapof(c.items), listof(c.evictList), entOf(c.items[key]).size, entOf(c.items[key]).value, c.items[key].Value
+
+// AddSizedIfMissing: a hit changes nothing (no recency refresh); a miss is AddSized of a new key
+func (c *capacityLRU) AddSizedIfMissing(key interface{}, value interface{}, sizeInBytes int64) (found bool, evicted bool)
+  mode bv
+  requires inv(c)
+  ensures  inv(c)
+  ensures  found-iff-present: sizeInBytes >= 0 ==> found == old(has(c.items, key))
+  ensures  hit-or-negative-changes-nothing: sizeInBytes < 0 || found ==> !evicted && c.currentCapacityInBytes == old(c.currentCapacityInBytes) && llen(c.evictList) == old(llen(c.evictList)) && (forall x *list.Element :: owner(x) == old(owner(x)) && next(x) == old(next(x)) && prev(x) == old(prev(x))) && (forall k any :: has(c.items, k) == old(has(c.items, k)) && (has(c.items, k) ==> c.items[k] == old(c.items[k])))
+  ensures  negative-not-found: sizeInBytes < 0 ==> !found
+  ensures  miss-adds-at-front: sizeInBytes >= 0 && !found ==> has(c.items, key) && newest(c) == c.items[key] && fresh(c.items[key]) && entOf(c.items[key]).key == key && entOf(c.items[key]).value == value && entOf(c.items[key]).size == sizeInBytes
+  ensures  miss-within-limits-or-single: sizeInBytes >= 0 && !found ==> llen(c.evictList) == 1 || (llen(c.evictList) <= c.size && c.currentCapacityInBytes <= c.maxCapacityInBytes)
+  ensures  miss-bytes-when-no-eviction: sizeInBytes >= 0 && !found && !evicted ==> c.currentCapacityInBytes == old(c.currentCapacityInBytes) + sizeInBytes
+  ensures  reports-eviction: sizeInBytes >= 0 && !found ==> evicted == (llen(c.evictList) != old(llen(c.evictList)) + 1)
+  ensures  miss-bytes-stay-the-sum: sizeInBytes >= 0 && !found && old(sizeSums(c)) && psum2(c.items[key]) == sizeInBytes && (forall x *list.Element :: old(inList(c.evictList, x)) ==> psum2(x) == psum(x) + sizeInBytes) ==> sizeSums2(c)
+  ensures  only-removes-others: forall x *list.Element :: sizeInBytes < 0 || x != c.items[key] ==> owner(x) == old(owner(x)) || (old(inList(c.evictList, x)) && owner(x) == nil)
+  ensures  index-only-shrinks: forall k any :: k != key && has(c.items, k) ==> old(has(c.items, k)) && c.items[k] == old(c.items[k])
+  ensures  lock-released: !held(c.lock)
+  assigns  c.currentCapacityInBytes, mapof(c.items), listof(c.evictList)
+
+// AddSizedAndReturnEvicted: AddSized + the evicted (key,value) pairs
+func (c *capacityLRU) AddSizedAndReturnEvicted(key interface{}, value interface{}, sizeInBytes int64) (r map[interface{}]interface{})
+  mode bv
+  requires inv(c)
+  ensures  inv(c)
+  ensures  newest-kept-at-front: sizeInBytes >= 0 ==> has(c.items, key) && newest(c) == c.items[key]
+  ensures  holds-the-entry: sizeInBytes >= 0 ==> entOf(c.items[key]).key == key && entOf(c.items[key]).value == value && entOf(c.items[key]).size == sizeInBytes
+  ensures  within-limits-or-single: withinLimits(c)
+  ensures  only-removes-others: forall x *list.Element :: sizeInBytes < 0 || x != c.items[key] ==> owner(x) == old(owner(x)) || (old(inList(c.evictList, x)) && owner(x) == nil)
+  ensures  index-only-shrinks: forall k any :: k != key && has(c.items, k) ==> old(has(c.items, k)) && c.items[k] == old(c.items[k])
+  ensures  returns-only-evicted: forall k any :: has(r, k) ==> old(has(c.items, k)) && !has(c.items, k) && r[k] == old(entOf(c.items[k]).value)
+  ensures  returns-all-evicted-new-key: !old(has(c.items, key)) ==> (forall k any :: old(has(c.items, k)) && !has(c.items, k) ==> has(r, k))
+  ensures  returns-all-evicted-on-update: old(has(c.items, key)) ==> (forall k any :: old(has(c.items, k)) && !has(c.items, k) ==> has(r, k))
+  ensures  fresh-result: fresh(r)
+  ensures  lock-released: !held(c.lock)
+  assigns  c.currentCapacityInBytes, mapof(c.items), listof(c.evictList), entOf(c.items[key]).size, entOf(c.items[key]).value, c.items[key].Value
+
+loop 1
+  invariant inv(c)
+  invariant held(c.lock)
+  invariant c.items == old(c.items) && c.evictList == old(c.evictList)
+  invariant fresh(evictedValues) && evictedValues != nil
+  invariant sizeInBytes >= 0 ==> has(c.items, key) && newest(c) == c.items[key]
+  invariant sizeInBytes >= 0 ==> entOf(c.items[key]).key == key && entOf(c.items[key]).value == value && entOf(c.items[key]).size == sizeInBytes
+  invariant forall x *list.Element :: sizeInBytes < 0 || x != c.items[key] ==> owner(x) == old(owner(x)) || (old(inList(c.evictList, x)) && owner(x) == nil)
+  invariant forall k any :: k != key && has(c.items, k) ==> old(has(c.items, k)) && c.items[k] == old(c.items[k])
+  invariant forall x *list.Element :: old(inList(c.evictList, x)) && (sizeInBytes < 0 || x != c.items[key]) ==> x.Value == old(x.Value) && entOf(x).key == old(entOf(x).key) && entOf(x).value == old(entOf(x).value)
+  invariant forall k any :: has(evictedValues, k) ==> old(has(c.items, k)) && !has(c.items, k) && evictedValues[k] == old(entOf(c.items[k]).value)
+  invariant returns-all-evicted-new-key: !old(has(c.items, key)) ==> (forall k any :: old(has(c.items, k)) && !has(c.items, k) ==> has(evictedValues, k))
+  invariant returns-all-evicted-on-update: old(has(c.items, key)) ==> (forall k any :: old(has(c.items, k)) && !has(c.items, k) ==> has(evictedValues, k))
+  decreases llen(c.evictList)
+@*/
+
+/*@
+// ---- construction, purge, enumeration ----
+
+func NewCapacityLRU(size int, byteCapacity int64) (r *capacityLRU, err error)
+  mode bv
+  ensures  rejects-bad-limits: (err != nil) == (size < 1 || byteCapacity < 1)
+  ensures  nil-on-error: err != nil ==> r == nil
+  ensures  establishes-invariant: err == nil ==> inv(r)
+  ensures  starts-empty: err == nil ==> fresh(r) && llen(r.evictList) == 0 && r.currentCapacityInBytes == 0 && r.size == size && r.maxCapacityInBytes == byteCapacity && (forall k any :: !has(r.items, k))
+  assigns  nothing
+
+func (c *capacityLRU) Purge()
+  mode bv
+  requires inv(c)
+  ensures  inv(c)
+  ensures  empty: llen(c.evictList) == 0 && c.currentCapacityInBytes == 0 && (forall k any :: !has(c.items, k)) && (forall x *list.Element :: !inList(c.evictList, x))
+  ensures  same-list: c.evictList == old(c.evictList)
+  ensures  lock-released: !held(c.lock)
+  assigns  c.items, c.currentCapacityInBytes, listof(c.evictList)
+
+// Keys: oldest first. nth is an arbitrary enumeration (uninterpreted, no axioms); the `requires` pins it to the
+// back-to-front walk of the list and states what the verifier cannot count: the walk ends after len(items) elements
+// (consequence of index <-> list being a bijection).
+spec fn nth(i int) *list.Element
+spec fn prevOf(e *list.Element) *list.Element = (owner(e) == nil || prev(e) == owner(e)) ? nil : prev(e)
+
+func (c *capacityLRU) Keys() (r []interface{})
+  mode bv
+  requires inv(c)
+  requires enumeration: nth(0) == oldest(c) && (forall i :: 0 <= i && nth(i) != nil ==> nth(i+1) == prevOf(nth(i)))
+  requires index-counts-the-list: forall i :: 0 <= i ==> ((nth(i) != nil) == (i < len(c.items)))
+  ensures  one-per-key: len(r) == len(c.items)
+  ensures  oldest-first: forall i :: 0 <= i && i < len(r) ==> nth(i) != nil && r[i] == entOf(nth(i)).key
+  ensures  fresh-result: fresh(r)
+  ensures  lock-released: !held(c.lock)
+  assigns  nothing
+
+loop 1
+  invariant held(c.lock)
+  invariant 0 <= i && i <= len(keys)
+  invariant len(keys) == len(c.items) && fresh(keys)
+  invariant ent == nth(i)
+  invariant ent != nil ==> inList(c.evictList, ent)
+  invariant forall j :: 0 <= j && j < i ==> nth(j) != nil && keys[j] == entOf(nth(j)).key
+@*/
